@@ -221,6 +221,10 @@ class _Expr(ast.NodeTransformer):
                     return at(ast.UnaryOp(op=ast.Not(), operand=x), node)
                 if (isinstance(op, (ast.NotEq, ast.Gt)) and r.value == 0) or (isinstance(op, ast.GtE) and r.value == 1):
                     return at(ast.UnaryOp(op=ast.Not(), operand=at(ast.UnaryOp(op=ast.Not(), operand=x), node)), node)
+            # 'c' == x -> x == 'c'   (a constant operand of == / != stands on the right)
+            if isinstance(op, (ast.Eq, ast.NotEq)) and isinstance(l, ast.Constant) and not isinstance(r, ast.Constant):
+                node.left, node.comparators = r, [l]
+                l, r = r, l
             # x in d.keys() -> x in d
             if isinstance(op, (ast.In, ast.NotIn)) and isinstance(r, ast.Call) and isinstance(r.func, ast.Attribute) and r.func.attr == 'keys' \
                     and not r.args and not r.keywords:
@@ -1325,6 +1329,13 @@ class FunctionNormalizer(object):
                         if not st.body:
                             st.body.append(at(ast.Pass(), st))
                         continue
+                # for x in IT: yield x   ->   yield from IT
+                if isinstance(st, ast.For) and not st.orelse and len(st.body) == 1 and isinstance(st.body[0], ast.Expr) and \
+                        isinstance(st.body[0].value, ast.Yield) and isinstance(st.target, ast.Name) and \
+                        isinstance(st.body[0].value.value, ast.Name) and st.body[0].value.value.id == st.target.id and \
+                        len([x for x in self._all_names(st.target.id)]) == 2:
+                    lst[i] = at(ast.Expr(value=ast.YieldFrom(value=st.iter)), st)
+                    continue
                 # for T in (E for x in IT): BODY   ->   for x in IT: T = E; BODY
                 if isinstance(st, ast.For) and isinstance(st.iter, (ast.GeneratorExp, ast.ListComp)) and len(st.iter.generators) == 1 and \
                         not st.iter.generators[0].ifs and not st.orelse and isinstance(st.iter.generators[0].target, (ast.Name, ast.Tuple)):
